@@ -13,7 +13,8 @@ RULE = ("strings over the markup alphabet (exhaustive up to a length, then sampl
         ' ; a Document whose root is a leaf; big-endian UTF-16 replies ending in a line end'
         ' ; elements that say they are not nil; an attribute of another W3C vocabulary; strings inside a ready-made Element argument'
         ' ; strings in no Unicode normal form; attributes sharing a local name'
-        ' ; U+FEFF in text; markup-heavy text holding the end of CDATA; token-typed leaves')
+        ' ; U+FEFF in text; markup-heavy text holding the end of CDATA; token-typed leaves'
+        ' ; values assigned over earlier ones')
 ASSUMPTIONS = [
     "pyexpat is the independent XML processor (trusted for XML 1.0 lexical rules)",
     "Python re.sub / str.replace behave as modelled (checked by the encode/decode correspondence)",
